@@ -5,6 +5,24 @@ V = os.path.dirname(os.path.dirname(os.path.abspath(__file__)))
 PY = '/venv/bin/python'
 
 CLAIMED = {
+  'C01': ('every design evaluated or returned by the exhaustive search (C01_exhaustive) and by the greedy search for any fuel (C01_greedy, loop invariant) is a legal assignment with non-empty groups over the admitted geos; correspondence of admitted set, generators, push log and both results with the real searches; oracle from the raw eligibility table',
+          'Lean proof (membership in generators, greedy loop invariant) + differential search runs',
+          'search model parametric in data tables; admitted-set model (Admit.lean) tied by correspondence only', '7/C01'),
+  'C02': ('all six constraints hold (inclusive bounds) for every exhaustive design (reading A) and every greedy design (reading B); unspecified constraints impose nothing; `_constraint_not_satisfied` regenerated from source; oracle recomputes every quantity from the raw frame',
+          'Lean proof over a generated predicate + differential search runs',
+          'theorems under WF (positive shares, finite impacts, iroas > 0)', '7/C02'),
+  'C03': ('evaluated set is sound and complete up to the documented budget-pruning omission (C03_sound, C03_complete), duplicate-free, result = top-k best first with nothing evaluated-but-dropped above anything kept (C03_topk), headline optimality C03_optimal; brute-force oracle over all 3^n assignments',
+          'Lean proof (fold invariants + bounded-queue theorems) + brute-force differential oracle',
+          'NaN-free scores; feasibility over the admitted geos', '7/C03'),
+  'C04': ('the score attached to each stored design is that of its own groups with the documented last entry (C04_score_of_design, C04_greedy_score); oracle rebuilds series and diagnostics from the raw frame for every returned design and checks for shared diagnostics objects',
+          'Lean proof (model fragment) + independent recomputation oracle; aliasing/date-window clauses carried by the oracle (partial)',
+          'series aggregation, date window and deep copies are runtime behaviour checked by oracle and push-log correspondence', '7/C04'),
+  'C09': ('exhaustive search never raises (C09_exhaustive_total), greedy never raises and terminates within an explicit fuel bound on NaN-free scores (C09_greedy_total, C09_greedy_terminates); exception-class correspondence and oracle on degenerate inputs',
+          'Lean proof (totality, termination measure) + exception-class differential runs',
+          'exceptions raised inside pandas/numpy/scipy are outside the model (partial)', '7/C09'),
+  'C13': ('without budget/share constraints every greedy design is an evaluated design of the exhaustive search with the same score (C13_greedy_in_evaluated), hence not above the optimum (C13_not_better) and empty when exhaustive is empty (C13_empty); both real searches compared',
+          'Lean proof (greedy invariant + characterisation of the evaluated set) + paired real runs',
+          'NaN-free scores for the order statement', '7/C13'),
   'C08': ('DiagCache state machine; theorem C08_no_stale (every read in every history = fresh value) proved for arbitrary invalidation lists under two obligations discharged by `decide` on lists regenerated from the source (translator T3); history correspondence against fresh objects',
           'Lean proof over a generated fragment + differential histories',
           'abstracts numeric values to (x version, y version) stamps; read logic of the nine properties hand-modelled; numpy/scipy not modelled', '7/C08'),
